@@ -391,9 +391,13 @@ def exec_case(task, cd):
     if case['fam']['driver'] == 'python':
         files['pyprobe.py'] = pyprobe_script(cd.out, case['fam']['exit'])
     cd.write(files, mode=mode)
-    # the process under test must never read the harness' stdin
+    # Exactly's own stdin is not the stdin of any process it starts (a process without stdin gets an empty one): the
+    # stdin of this process holds a text that no process may ever see
     try:
-        fd = os.open(os.devnull, os.O_RDONLY)
+        host_stdin = os.path.join(cd.out, 'stdin-of-exactly.txt')
+        with open(host_stdin, 'w') as fh:
+            fh.write('THE-STDIN-OF-EXACTLY-ITSELF\n')
+        fd = os.open(host_stdin, os.O_RDONLY)
         os.dup2(fd, 0)
         os.close(fd)
     except OSError:
